@@ -11,7 +11,7 @@ import ChessVerif.Props.C11
 import ChessVerif.Lemmas.KingMoves
 import ChessVerif.Lemmas.CastleSafe
 import ChessVerif.Lemmas.GenShapeWf
-import ChessVerif.Lemmas.EpExact
+import ChessVerif.Lemmas.WfStep
 namespace Chess.Props
 
 /-- the rules-level move a packed engine move denotes in position p -/
@@ -295,6 +295,14 @@ def c01Ep : Position := { side := 0, halfmove := 0, ply := 1, board := c01EpBoar
 set_option maxRecDepth 100000 in
 example : Spec.wf (Chess.absPos c01Ep) = true ∧ c01Ep.ep ≠ 64 ∧ (genMoves c01Ep).length = 7 ∧ mkMove 36 43 ∈ genMoves c01Ep ∧
     Spec.isEpCapture (Chess.absPos c01Ep) ⟨36, 43, 0⟩ = true := by decide +kernel
+
+/-- **C01 on every position of every legal game**: if the model position shows the position reached from the initial position by any
+    sequence of moves each legal in its turn, the generated list is exactly the list of legal moves (well-formedness is an invariant
+    of legal play, Lemmas/WfStep.lean) -/
+theorem C01_reachable (ms : List Spec.SMove) (h : LegalGame startSPos ms) (p : Position)
+    (hp : Chess.absPos p = ms.foldl Spec.apply startSPos) (code : Nat) :
+    code ∈ genMoves p ↔ ∃ m, m ∈ Spec.legalMoves (Chess.absPos p) ∧ codeOf (Chess.absPos p) m = code :=
+  exact_all p (by rw [hp]; exact wf_reachable ms h) code
 
 /-- non-vacuity 1: the initial position (20 legal moves, all generated) -/
 def c01StartBoard : List Nat :=
